@@ -16,32 +16,44 @@ PROP = dict(
          'exactly for both attackers by retrograde analysis; among them shuffle-prone roots (a wall and a stack on the board: the hunt for a '
          'wrong verdict caused by repetition) and finished games as roots; plus 4x4/5x5 positions with default reserves near the end of road races, '
          'judged one-sidedly by exhaustive search to depth 3-5. Solvers: PN (node limits 5..20000 and unlimited, MaxDepth 0..8, '
-         'PreserveSolved on/off), PN-squared, DFPN (tables of 1..65536 entries, attacker unset / White / Black). Every run is judged by '
-         'the oracle; the runs without PN-squared whose cost is within the model budget are also replayed by the extracted Coq model. '
+         'PreserveSolved on/off), PN-squared (a quarter of the PN runs; plus roots within the first plies of the 3x3 games and 4x4/5x5 '
+         'positions with default reserves, screened by a run of the solver so that the first-level counter passes pn2Threshold = 1000 and '
+         'the second level really starts, with node limits that give second-level limits of every kind: Live, Live^2/MaxNodes, none), '
+         'DFPN (tables of 1..65536 entries, attacker unset / White / Black). Every run is judged by the oracle; the runs whose cost is '
+         'within the model budget are also replayed by the extracted Coq model (PN-squared runs: Pn2.v, run with Config.Debug = 3 so that '
+         'the number of second-level searches, the nodes they created and their limits are part of the comparison; plain PN runs: Pn.v). '
          'non-trivial = the solver made at least one search step; distinct = distinct (root, configuration) strings',
     assumptions=['PN with MaxDepth = d: the depth limit counts against the attacker (DESIGN 5.6) - `disproven` then claims "no win within d plies" '
                  'and is judged against the exact least winning bound of the retrograde solution (a win deeper than d is no failure); `proven` '
                  'always has to be a real forced win',
                  'no 64-bit hash collision among the positions of one DFPN search',
-                 'PN-squared is judged by the oracle only (the model has no PN-squared)',
+                 'PN-squared runs that are compared with the model are made with Config.Debug = 3 (pn2() then logs one line per second-level '
+                 'search; logging is assumed not to change the search) and one at a time; the other PN-squared runs are judged by the oracle only',
                  'a returned move of type 0 is "no move"; with DFPN attacker != side to move the returned move is a move of the defender'],
 )
 
 MANIFEST = dict(
-    text="Coq (8 theorems, closed under the global context): truth_equiv / truth_equiv_bounded (a forced win under the third-repetition "
+    text="Coq (14 theorems, closed under the global context): truth_equiv / truth_equiv_bounded (a forced win under the third-repetition "
          "rule = membership in the history-free attractor, any game, with a depth bound and positions identified by Position.Equal); "
          "pn_invariant (every node of every tree the PN search loop of the code-shaped model Pn.v reaches: proof number 0 -> forced win, "
          "disproof number 0 -> not won on its line of play within MaxDepth) and pn_verdict_sound for the entry point pn_run (proven -> "
          "forced win and the returned move keeps it; disproven -> no win within MaxDepth under the repetition rule), every node limit / "
-         "PreserveSolved / MaxDepth, boards up to 8x8; dfpn_proven_sound over the code-shaped model Dfpn.v (thresholds, table with "
+         "PreserveSolved / MaxDepth, boards up to 8x8; pn2_invariant and pn2_verdict_sound: the same two statements for the model Pn2.v of "
+         "the search WITH the PN-squared switch (second-level search from the selected node once Stats.Nodes exceeds pn2Threshold, own "
+         "counters and node limit Live^2/MaxNodes, numbers / value / depth statistic copied back, children kept as unexpanded leaves with "
+         "their second-level numbers, ancestors of a node left unsolved not recomputed, iterations resuming at the node where "
+         "updateAncestors stopped), entry point pn2_run, for every threshold, either setting of the switch, any fuel; pn2_off_is_pn: with the switch off the PN-squared "
+         "model returns exactly what the plain model returns (tree, counters, verdict, move) - the re-descent from the root of Pn.v and the "
+         "resumption at `current` of Pn2.v / the code are the same computation without PN2; dfpn_proven_sound over the code-shaped model Dfpn.v (thresholds, table with "
          "work-based replacement, killer moves, immediate-threat shortcut, repetition) under explicit hypotheses (no hash collision on the "
          "positions of the run, C19, a live position has a move), also for a reused solver; dfpn_disproven_sound for runs that met no "
          "repetition. The extracted models of prove/pn.go and prove/dfpn.go (incl. one solver reused over several positions) are replayed "
-         "against Prover.Prove / DFPNSolver.Prove (verdict and move at L1; proof numbers, depth and all counters at L2), and an independent "
+         "against Prover.Prove (with and without PN-squared) / DFPNSolver.Prove (verdict and move at L1; proof numbers, depth, all counters "
+         "and the trace of the second level at L2), and an independent "
          "retrograde solver of the complete reachable game graph judges every verdict and returned move of PN, PN-squared and DFPN.",
     ref='5.6', technique='Coq proof (truth = attractor; PN invariant and verdict soundness; DFPN proven / repetition-free disproven soundness, over the code-shaped models) + extracted-model/implementation differential + exact retrograde oracle',
-    note="Trusted: Coq kernel, extraction, transcription of prove/pn.go and prove/dfpn.go (validated by execution), generators, the "
+    note="Trusted: Coq kernel, extraction, transcription of prove/pn.go (Pn.v, Pn2.v) and prove/dfpn.go (validated by execution), generators, the "
          "retrograde oracle (uses the rules engine to enumerate the graph). Not proved: DFPN disproven for runs with repetitions "
          "(graph-history interaction; hunted by the oracle on the cyclic region of the solved graphs), the move returned by DFPN, "
-         "PN-squared, and the congruence of Position.Equal that links the PN theorem's line-of-play truth to the attractor (the two "
-         "_partial PN corollaries); the DFPN theorems carry NoCollision / C19 as hypotheses.")
+         "that the two cannot-happen stops of Pn2.v never occur (reported as mismatches if they do), and the congruence of Position.Equal that links the PN theorem's line-of-play truth to the attractor (the two "
+         "_partial PN corollaries and their two PN-squared twins); the DFPN theorems carry NoCollision / C19 as hypotheses.")
